@@ -1601,15 +1601,15 @@ public:
   }
 
   /*
-    c1 or ... or cn  += true  ==> error
+    c1 or ... or cn  += true  ==> true
     c1 or ... or cn  += false ==> c1 or .. or cn
     c1 or ... or cn  += c     ==> c1 or ... or cn or c
   */
   this_type &operator+=(const linear_constraint_system_t &cst) {
     if (cst.is_true()) {
-      // adding true should make the whole thing true
-      // but we prefer to raise an error for now.
-      CRAB_ERROR("Disjunctive linear constraint: cannot add true");
+      // adding true makes the whole thing true
+      clear();
+      return *this;
     }
 
     if (!cst.is_false()) {
@@ -1620,15 +1620,15 @@ public:
   }
 
   /*
-    c1 or ... or cn  += true  ==> error
+    c1 or ... or cn  += true  ==> true
     c1 or ... or cn  += false ==> c1 or .. or cn
     c1 or ... or cn  += d1 or ... or dn   ==> c1 or ... or cn or d1 or ... or dn
   */
   this_type &operator+=(const this_type &s) {
     if (s.is_true()) {
-      // adding true should make the whole thing true
-      // but we prefer to raise an error for now.
-      CRAB_ERROR("Disjunctive linear constraint: cannot add true");
+      // adding true makes the whole thing true
+      clear();
+      return *this;
     }
     if (!s.is_false()) {
       for (const linear_constraint_system_t &c : s) {
